@@ -291,6 +291,8 @@ fn main() {
     let out = PathBuf::from(std::env::var("OUT_DIR").unwrap());
     println!("cargo:rerun-if-changed=worlds.rs");
     println!("cargo:rerun-if-changed=build.rs");
+    // the exports of the C07 guest are looked up by symbol name at run time (dlsym)
+    println!("cargo:rustc-link-arg-bins=-rdynamic");
     let mut registry = String::from("pub struct Entry { pub sig: usize, pub name: &'static str, pub variant: &'static str, pub nargs: usize, pub call_g: unsafe fn(&[u64]) -> u64, pub post_return: Option<unsafe fn(&[u64])>, pub callback: Option<unsafe fn(u32, u32, u32) -> u32> }\n");
     let mut mods = String::new();
     let mut entries = String::from("pub static ENTRIES: &[Entry] = &[\n");
@@ -358,20 +360,50 @@ fn main() {
             }
         }
         walk(&file.items, &mut vec![], &mut found);
+        // The host reaches the guest the way a real host does: through the symbols the
+        // `export!` macro defines (`<interface>#<function>`, `cabi_post_...`), looked up
+        // by name at run time. The names come from the WIT, not from the generated code.
+        let mut symbols: std::collections::BTreeMap<String, String> = Default::default();
+        {
+            let mut resolve = wit_parser::Resolve::default();
+            let pkg = resolve.push_str("w.wit", C07_WIT).unwrap();
+            let world = resolve.select_world(&[pkg], None).unwrap();
+            let key_of = |n: &str| n.replace("[constructor]", "constructor_").replace("[static]", "static_").replace("[method]", "method_").replace(['.', '-'], "_");
+            for (_, item) in resolve.worlds[world].exports.iter() {
+                match item {
+                    wit_parser::WorldItem::Interface { id, .. } => {
+                        let iface = resolve.id_of(*id).expect("interface id");
+                        for (n, _) in resolve.interfaces[*id].functions.iter() {
+                            if symbols.insert(key_of(n), format!("{iface}#{n}")).is_some() {
+                                panic!("simgen: two exported functions of the C07 world share the key {}", key_of(n));
+                            }
+                        }
+                    }
+                    wit_parser::WorldItem::Function(f) => {
+                        symbols.insert(key_of(&f.name), f.name.clone());
+                    }
+                    _ => {}
+                }
+            }
+        }
         let (mut call_arms, mut post_arms) = (vec![], vec![]);
-        for (path, f) in &found {
+        for (_path, f) in &found {
             let name = f.sig.ident.to_string();
-            let segs: Vec<proc_macro2::Ident> = path.iter().map(|s| format_ident!("{}", s)).collect();
-            let id = &f.sig.ident;
-            // the generic parameter is bound by `Guest` (functions) or `Guest<Resource>` (resource items)
-            let bound = f.sig.generics.type_params().next().map(|tp| tp.bounds.to_token_stream().to_string()).unwrap_or_default();
-            let ty = if bound.contains("GuestGadget") { quote!(crate::c07::MyGadget) } else { quote!(crate::c07::G) };
             let mut conv = vec![];
+            let mut tys = vec![];
             for (i, inp) in f.sig.inputs.iter().enumerate() {
                 let syn::FnArg::Typed(pt) = inp else { panic!() };
                 conv.push(from_bits_expr(&pt.ty, quote!(args[#i])));
+                tys.push((*pt.ty).clone());
             }
-            let call = quote!(crate::c07_bindings #(::#segs)* ::#id::<#ty>(#(#conv),*));
+            let out_ty = &f.sig.output;
+            let key0 = if name.starts_with("_export_") { name.trim_start_matches("_export_").trim_end_matches("_cabi").to_string() } else { name.trim_start_matches("__post_return_").to_string() };
+            let sym = symbols.get(&key0).unwrap_or_else(|| panic!("simgen: no WIT export for generated function {name}")).clone();
+            let sym = if name.starts_with("_export_") { sym } else { format!("cabi_post_{sym}") };
+            let call = quote!({
+                let f: unsafe extern "C" fn(#(#tys),*) #out_ty = ::core::mem::transmute(crate::c07::export_symbol(#sym));
+                f(#(#conv),*)
+            });
             if name.starts_with("_export_") {
                 let key = name.trim_start_matches("_export_").trim_end_matches("_cabi").to_string();
                 let body = match &f.sig.output {
@@ -392,6 +424,54 @@ fn main() {
                 unsafe { match name { #(#post_arms)* _ => false } }
             }
         };
+        // The guest's implementation of the interfaces whose parameter types depend on how the
+        // generator classifies an aliased resource (`exp2`, `exp3`) takes its method signatures
+        // from the generated trait and forwards to generic user functions in src/c07.rs, so the
+        // harness builds whatever handle type the generator chose.
+        fn module_items<'a>(items: &'a [syn::Item], path: &[&str]) -> &'a [syn::Item] {
+            let mut cur = items;
+            for seg in path {
+                cur = cur
+                    .iter()
+                    .find_map(|i| match i {
+                        syn::Item::Mod(m) if m.ident == seg => m.content.as_ref().map(|(_, it)| &it[..]),
+                        _ => None,
+                    })
+                    .unwrap_or_else(|| panic!("simgen: no module {seg} in the C07 bindings"));
+            }
+            cur
+        }
+        let mut glue = vec![];
+        for iface in ["exp2", "exp3"] {
+            let items = module_items(&file.items, &["exports", "verif", "c07", iface]);
+            let tr = find_trait(items, "Guest").expect("Guest trait");
+            let mut methods = vec![];
+            for it in &tr.items {
+                let syn::TraitItem::Fn(m) = it else { continue };
+                let sig = &m.sig;
+                let name = &sig.ident;
+                let args: Vec<_> = sig
+                    .inputs
+                    .iter()
+                    .map(|a| match a {
+                        syn::FnArg::Typed(pt) => pt.pat.to_token_stream(),
+                        _ => panic!("receiver"),
+                    })
+                    .collect();
+                let user = format_ident!("{}_impl", iface);
+                methods.push(quote!(#sig { crate::c07::#user::#name(#(#args),*) }));
+            }
+            let m = format_ident!("{}_glue", iface);
+            let ifid = format_ident!("{}", iface);
+            glue.push(quote! {
+                mod #m {
+                    #[allow(unused_imports)]
+                    use crate::c07_bindings::exports::verif::c07::#ifid::*;
+                    impl Guest for crate::c07::G { #(#methods)* }
+                }
+            });
+        }
+        let exports = quote!(#exports #(#glue)*);
         let f: syn::File = syn::parse2(exports).expect("exports glue parses");
         std::fs::write(out.join("c07_exports.rs"), prettyplease::unparse(&f)).unwrap();
     }
